@@ -60,7 +60,8 @@ func Create() *Builder {
 // Interface 指定接口类型的变量定义
 // iFace 必须是指针类型, 比如 i 为 interface 类型变量, iFace 传递&i
 func (b *Builder) Interface(iFace interface{}) *CachedInterfaceMocker {
-	mKey := reflect.TypeOf(iFace).String()
+	// 接口变量的 mock 和变量绑定: 相同接口类型的不同变量需要各自独立的 Mocker
+	mKey := fmt.Sprintf("%s_%d", reflect.TypeOf(iFace).String(), reflect.ValueOf(iFace).Pointer())
 	if mocker, ok := b.mockers[mKey]; ok && !mocker.Canceled() {
 		b.reset2CurPkg()
 		return mocker.(*CachedInterfaceMocker)
